@@ -205,7 +205,23 @@ struct Node<C: SimCfg> {
     clock_floor: u64,
     min_fb_late: usize,
     last_too_far: bool,
+    watch: BTreeMap<Addr, Watch>,
+    was_running: bool,
     frame_at_heal: Option<i32>,
+}
+
+#[derive(Clone, Debug, Default)]
+struct Watch {
+    last_recv: u64,
+    running: bool,
+    notified: bool,
+    disc_sent: bool,
+    disconnected: bool,
+    api_disconnected: bool,
+    shutdown_at: Option<u64>,
+    remote_magic: u16,
+    matches: u32,
+    matched: Vec<u32>,
 }
 
 #[derive(Clone, Copy, Debug, PartialEq, Eq)]
@@ -351,6 +367,18 @@ impl<'p, C: SimCfg> World<'p, C> {
                 }
             };
             w.nodes.push(node);
+            for (j, other) in plan.nodes.iter().enumerate() {
+                let watched = match (&ns.kind, &other.kind) {
+                    _ if i == j => false,
+                    (NodeKind::Peer { .. }, NodeKind::Peer { .. }) => true,
+                    (NodeKind::Peer { .. }, NodeKind::Spectator { host, .. }) => *host == i,
+                    (NodeKind::Spectator { host, .. }, NodeKind::Peer { .. }) => *host == j,
+                    _ => false,
+                };
+                if watched {
+                    w.nodes[i].watch.insert(j as Addr, Watch::default());
+                }
+            }
             w.nodes[i].rng = ggrs::verif::rng_state();
             w.nodes[i].api_done = vec![false; plan.api.len()];
             if let Some((pf, mode)) = plan.perturb.iter().find(|p| p.node == i).map(|p| (p.frame, p.mode.clone())) {
@@ -529,19 +557,143 @@ impl<'p, C: SimCfg> World<'p, C> {
 
     // -------------------------------------------------------------- node steps
 
-    fn drain_events(&mut self, i: usize) {
+    fn drain_events(&mut self, i: usize) -> Vec<Ev> {
         if !self.plan.nodes[i].drain {
-            return;
+            return Vec::new();
         }
         let evs: Vec<Ev> = match &mut self.nodes[i].sess {
             Sess::Peer(s) => s.events().map(Ev::from::<C>).collect(),
             Sess::Spec(s) => s.events().map(Ev::from::<C>).collect(),
         };
-        for e in evs {
+        for e in &evs {
             self.trace.add_all(&[self.now, 9, i as u64, e.code()]);
-            *self.probes.events.entry(ev_name(&e)).or_insert(0) += 1;
-            self.on_event(i, &e);
-            self.nodes[i].events.push((self.now, e));
+            *self.probes.events.entry(ev_name(e)).or_insert(0) += 1;
+            self.on_event(i, e);
+            self.nodes[i].events.push((self.now, e.clone()));
+        }
+        evs
+    }
+
+    /// Reference model of the connection lifecycle per (session, remote address): handshake
+    /// accounting (which replies match a request that was really sent) and the two silence
+    /// timers. Compared, poll by poll, with the events the session actually reported.
+    fn check_lifecycle(&mut self, i: usize, recv: &[(Addr, Option<MMsg>, bool)], evs: &[Ev]) {
+        let o = &self.plan.oracle;
+        if !o.lifecycle || !self.plan.nodes[i].drain {
+            return;
+        }
+        let exact_timing = o.lifecycle_timing && !self.plan.nodes[i].tick.use_wait && self.plan.cfg.clock_bump_us == 0;
+        let t = self.now;
+        let notify = self.plan.cfg.notify_ms * 1000;
+        let timeout = self.plan.cfg.timeout_ms * 1000;
+        let addrs: Vec<Addr> = self.nodes[i].watch.keys().copied().collect();
+        let mut all_synced = true;
+        for x in addrs {
+            let sent: Vec<u32> = self.core.borrow().sync_requests.get(&(i, x as usize)).cloned().unwrap_or_default();
+            let mut w = self.nodes[i].watch.get(&x).cloned().unwrap();
+            let mut expect: Vec<Ev> = Vec::new();
+            for (from, m, _inj) in recv {
+                if *from != x {
+                    continue;
+                }
+                let Some(m) = m else { continue };
+                if w.shutdown_at.is_some_and(|s| t > s) {
+                    continue;
+                }
+                if w.remote_magic != 0 && m.magic != w.remote_magic {
+                    continue;
+                }
+                w.last_recv = t;
+                if w.running && w.notified && !w.disconnected {
+                    w.notified = false;
+                    expect.push(Ev::Resumed { addr: x });
+                }
+                if let MBody::SyncReply { random_reply } = m.body {
+                    if w.matches < 5 && !w.disconnected && sent.contains(&random_reply) && !w.matched.contains(&random_reply) {
+                        w.matched.push(random_reply);
+                        w.matches += 1;
+                        if w.matches < 5 {
+                            expect.push(Ev::Synchronizing { addr: x, total: 5, count: w.matches });
+                        } else {
+                            expect.push(Ev::Synchronized { addr: x });
+                            w.running = true;
+                            w.remote_magic = m.magic;
+                        }
+                    }
+                }
+                if let MBody::Input(inp) = &m.body {
+                    if inp.disconnect_requested && w.running && !w.disc_sent && !w.disconnected {
+                        w.disc_sent = true;
+                        expect.push(Ev::Disconnected { addr: x });
+                    }
+                }
+            }
+            if w.running && !w.disconnected {
+                if !w.notified && w.last_recv + notify < t {
+                    w.notified = true;
+                    expect.push(Ev::Interrupted { addr: x, timeout_ms: (timeout.saturating_sub(notify) / 1000) as u128 });
+                }
+                if !w.disc_sent && w.last_recv + timeout < t {
+                    w.disc_sent = true;
+                    expect.push(Ev::Disconnected { addr: x });
+                }
+            }
+            let got: Vec<Ev> = evs.iter().filter(|e| e.addr() == Some(x) && !matches!(e, Ev::Desync { .. })).cloned().collect();
+            // what the model cannot predict: disconnects decided elsewhere (overflow of unacknowledged
+            // inputs, gossip, explicit API call). They end the lifecycle of that address.
+            let unpredicted_disconnect = got.iter().any(|e| matches!(e, Ev::Disconnected { .. })) && !expect.iter().any(|e| matches!(e, Ev::Disconnected { .. }));
+            if got.iter().any(|e| matches!(e, Ev::Disconnected { .. })) {
+                w.disconnected = true;
+                w.shutdown_at = Some(t + 5_000_000);
+            }
+            let (got_cmp, exp_cmp): (Vec<Ev>, Vec<Ev>) = if exact_timing && !unpredicted_disconnect && !w.api_disconnected {
+                (got.clone(), expect.clone())
+            } else {
+                // handshake events only
+                let hs = |v: &Vec<Ev>| v.iter().filter(|e| matches!(e, Ev::Synchronizing { .. } | Ev::Synchronized { .. })).cloned().collect::<Vec<_>>();
+                (hs(&got), hs(&expect))
+            };
+            if got_cmp != exp_cmp {
+                let g = self.nodes[i].game.g;
+                self.violate(
+                    "c12.lifecycle_model",
+                    i,
+                    g,
+                    format!(
+                        "node {i}, address {x}, poll at {} ms: session reported {:?} but the handshake/timer model expects {:?} (last accepted packet at {} ms, notify {} ms, timeout {} ms, matched replies {})",
+                        t / 1000,
+                        got_cmp,
+                        exp_cmp,
+                        w.last_recv / 1000,
+                        notify / 1000,
+                        timeout / 1000,
+                        w.matches
+                    ),
+                );
+            }
+            if w.matches < 5 && !w.disconnected && !w.api_disconnected {
+                all_synced = false;
+            }
+            self.nodes[i].watch.insert(x, w);
+        }
+        let running = match &self.nodes[i].sess {
+            Sess::Peer(s) => s.current_state() == SessionState::Running,
+            Sess::Spec(s) => s.current_state() == SessionState::Running,
+        };
+        if running != all_synced && !self.nodes[i].watch.is_empty() {
+            // once Running a session stays Running
+            if !(running && self.nodes[i].was_running) {
+                let g = self.nodes[i].game.g;
+                self.violate(
+                    "c12.running_vs_handshakes",
+                    i,
+                    g,
+                    format!("node {i}: current_state() is {} but {} remote address has completed the full handshake", if running { "Running" } else { "Synchronizing" }, if all_synced { "every" } else { "not every" }),
+                );
+            }
+        }
+        if running {
+            self.nodes[i].was_running = true;
         }
     }
 
@@ -550,6 +702,11 @@ impl<'p, C: SimCfg> World<'p, C> {
         if o.no_disconnect_events {
             if let Ev::Disconnected { addr } = e {
                 self.violate("c05.disconnected", i, self.nodes[i].game.g, format!("node {i} reports Disconnected for address {addr} although every fault ended before the timeout"));
+            }
+        }
+        if o.no_interrupted_events {
+            if let Ev::Interrupted { addr, .. } = e {
+                self.violate("c12.interrupted_while_healthy", i, self.nodes[i].game.g, format!("node {i} reports NetworkInterrupted for address {addr} although both sessions poll regularly over a healthy link"));
             }
         }
         if o.no_desync_events {
@@ -653,7 +810,8 @@ impl<'p, C: SimCfg> World<'p, C> {
         for (from, m, inj) in &recv {
             self.trace.add_all(&[self.now, 8, i as u64, *from as u64, m.as_ref().map(|m| m.kind()).unwrap_or(K_UNKNOWN) as u64, *inj as u64]);
         }
-        self.drain_events(i);
+        let evs = self.drain_events(i);
+        self.check_lifecycle(i, &recv, &evs);
         self.check_buffers(i);
     }
 
@@ -691,7 +849,17 @@ impl<'p, C: SimCfg> World<'p, C> {
                     }
                 }
                 Api::Disconnect { handle } => {
+                    let owner = self.plan.owner_of(handle).or_else(|| {
+                        // spectator handle: the k-th spectator of this host
+                        handle.checked_sub(self.plan.cfg.num_players).and_then(|k| self.plan.num_spectators_of(i).get(k).copied())
+                    });
                     let r = guarded(|| s.disconnect_player(handle));
+                    if let (Some(o), Ok(Ok(()))) = (owner, &r) {
+                        if let Some(wt) = self.nodes[i].watch.get_mut(&(o as Addr)) {
+                            wt.api_disconnected = true;
+                            wt.disconnected = true;
+                        }
+                    }
                     if let Err(p) = r {
                         self.leave(i);
                         self.panic_violation(i, &format!("disconnect_player({handle})"), p);
@@ -828,6 +996,10 @@ impl<'p, C: SimCfg> World<'p, C> {
                 self.viol.push(Violation { class: "c02.unexpected_error".into(), text: format!("advance_frame returned {e:?} with every local input present"), t_us: self.now, node: i, frame: g });
             }
             Ok(reqs) => {
+                if s.current_state() != SessionState::Running {
+                    let g = node.game.g;
+                    self.viol.push(Violation { class: "c12.advanced_while_synchronizing".into(), text: "advance_frame returned Ok although current_state() is Synchronizing".into(), t_us: self.now, node: i, frame: g });
+                }
                 // the submissions of this call reached the session's queues
                 for (l, v) in &submitted {
                     if let Some(m) = self.models[*l].as_mut() {
@@ -1154,7 +1326,7 @@ impl<'p, C: SimCfg> World<'p, C> {
                 if plan.horizon_us >= lv.deadline_us {
                     self.now = self.now.max(lv.deadline_us);
                     for i in 0..self.nodes.len() {
-                        if !self.nodes[i].alive {
+                        if !self.nodes[i].alive || (!lv.nodes.is_empty() && !lv.nodes.contains(&i)) {
                             continue;
                         }
                         let at_heal = self.nodes[i].frame_at_heal.unwrap_or(0);
@@ -1163,6 +1335,9 @@ impl<'p, C: SimCfg> World<'p, C> {
                             Sess::Peer(s) => s.current_state() == SessionState::Running,
                             Sess::Spec(s) => s.current_state() == SessionState::Running,
                         };
+                        if !running && !lv.require_running {
+                            continue;
+                        }
                         if !running {
                             self.violate("c05.not_running", i, g, format!("node {i} is still Synchronizing {} ms after the last fault", (self.now - lv.heal_us) / 1000));
                         } else if g - at_heal < lv.min_frames {
@@ -1187,7 +1362,7 @@ impl<'p, C: SimCfg> World<'p, C> {
                             // figure bounce, a spectator that really caught up touches the target repeatedly
                             let _ = s;
                             let fb = self.nodes[i].min_fb_late;
-                            if catchup >= 2 && fb != usize::MAX && fb > max_behind + 2 {
+                            if lv.spectator_lag && catchup >= 2 && fb != usize::MAX && fb > max_behind + 2 {
                                 self.violate("c05.spectator_lagging", i, g, format!("spectator node {i} is still {fb} frames behind its host {} ms after the last fault (max_frames_behind {max_behind}, catchup_speed {catchup})", (self.now - lv.heal_us) / 1000));
                             }
                         }
@@ -1294,6 +1469,8 @@ impl<C: SimCfg> Node<C> {
             clock_floor: 0,
             min_fb_late: usize::MAX,
             last_too_far: false,
+            watch: BTreeMap::new(),
+            was_running: false,
             frame_at_heal: None,
         }
     }
